@@ -255,3 +255,11 @@ def lock_order_acyclic(ctx):
     have = {(name(a), name(b)) for a, b in g.edges}
     ctx.check(want in have, 'activate holds the dispatcher lock around the update lock', None, 'edge Dispatcher._lock -> Module.updateLock present',
               'expected edge Dispatcher._lock -> Module.updateLock not found (call resolution of handle_request changed?)')
+
+
+@rule('C08.R7', min_instances=1)
+def no_iteration_over_mutated_collections(ctx):
+    """cross-cutting: no loop of the dispatcher / module base iterates a live collection that its body mutates
+    (subscription tables, callback lists)"""
+    from sa.rules import common
+    common.iterate_while_mutating(ctx, {'frappy.protocol.dispatcher', 'frappy.modulebase', 'frappy.logging', 'frappy.io'})
